@@ -314,6 +314,18 @@ def prelude(ctx: Ctx) -> dict[str, Any]:
 			imports = [i.import_path.tokens for i in mod.entrypoint.imports]
 			keys = [k for k, _ in ses.db.items(mod.path)]
 			mods.append({'name': mod.path, 'imports': imports, 'keys': len(keys), 'named': [named[k] for k in keys if k in named]})
+		# which library stub stops rendering when which library module is unloaded (measured, not assumed)
+		rep = {libs[0]: f'{libs[0]}#type', libs[1]: f'{libs[1]}#int'}
+		for m in mods:
+			m['always'] = []
+		for lib in libs:
+			probe = RealSession(proj, ctx.tmpdir('c04-cache-'))
+			for x in libs:
+				probe.modules.load(x)
+			probe.modules.unload(lib)
+			for m in mods:
+				if m['name'] != lib and m['name'] in probe.loaded() and probe.transpile(m['name'])[0] != 'text':
+					m['always'].append(rep[lib])
 		_PRELUDE = {'libs': libs, 'mods': mods, 'std_method': [f'{libs[0]}#type', f'{libs[1]}#int'], 'std_var': [f'{libs[1]}#int']}
 	return _PRELUDE
 
@@ -323,7 +335,7 @@ def world_lines(ctx: Ctx, pool: list[dict[str, Any]]) -> list[str]:
 	lines = ['world']
 	for m in pre['mods']:
 		imps = ','.join(f'{d}:' for d in m['imports']) or '-'
-		lines.append('\t'.join(['mod', m['name'], '1', imps, ';'.join(m['named']) or '-', '-', str(m['keys'] - len(m['named']))]))
+		lines.append('\t'.join(['mod', m['name'], '1', imps, ';'.join(m['named']) or '-', '-', str(m['keys'] - len(m['named'])), ','.join(m['always']) or '-']))
 	lines.append('\t'.join(['std', ','.join(pre['std_method']), ','.join(pre['std_var'])]))
 	for mod in pool:
 		lines.append('\t'.join(['mod', mod['name'], *desc_tokens(mod), '0']))
